@@ -410,6 +410,24 @@ def gen_case(rng: random.Random, depth: int) -> dict:
     vexpr, _ = g.gen_value(t)
     if rk != "any":
         g.inq = True
+        # a bytes-like root behind the transparent wrappers of the universe (qualifiers, NewType, alias, references):
+        # still a bytes-like T, still carried verbatim by every entry point
+        w = rng.choice(["", "", "final", "classvar", "newtype", "alias", "str", "fref", "final-newtype"])
+        if w in ("newtype", "final-newtype"):
+            g.defs.append(f"BWrapN = typing.NewType('BWrapN', {texpr})")
+            texpr = "BWrapN" if w == "newtype" else "typing.Final[BWrapN]"
+        elif w == "alias":
+            g.defs.append("from typelib.py.compat import TypeAliasType as _TAT")
+            g.defs.append(f"BWrapA = _TAT('BWrapA', {texpr})")
+            texpr = "BWrapA"
+        elif w == "final":
+            texpr = f"typing.Final[{texpr}]"
+        elif w == "classvar":
+            texpr = f"typing.ClassVar[{texpr}]"
+        elif w == "str":
+            texpr = repr(texpr)
+        elif w == "fref":
+            texpr = f"typing.ForwardRef({texpr!r})"
     return {"source": PRELUDE + "\n".join(g.defs) + "\n", "texpr": texpr, "vexpr": vexpr, "head": t[0],
             "inq": g.inq, "c01_safe": g.safe, "why": sorted(g.why), "union": g.union, "bytes_t": rk != "any",
             "depth": type_depth(t)}
